@@ -663,12 +663,16 @@ def run_impl(case):
         path, end = paths[r], []
         src_canon = [canon(x) for x in rows_by_run[r]]
         try:
+            at_end = []
             dumper.subscribe(on_next=lambda i: end.append('next'), on_error=lambda e: end.append('error:' + type(e).__name__),
-                             on_completed=lambda: end.append('completed'))
+                             on_completed=lambda: (end.append('completed'),
+                                                   at_end.append(os.path.getsize(path) if os.path.exists(path) else -1)))
         finally:
             if fobj is not None:
                 fobj.close()
         obs = {'dump_end': end, 'size': os.path.getsize(path) if os.path.exists(path) else None}
+        # when completion is signalled the file the library opened itself must be complete (footer written, closed)
+        obs['size_at_completion'] = at_end[0] if (at_end and case['io'] != 'fileobj') else None
         per.append(obs)
         pf = pq.ParquetFile(path)
         md = pf.metadata
@@ -746,6 +750,9 @@ def judge(case, k, obs, run=None):
     if case.get('scale'):
         kord += ' [scale case %s: %d rows, dump batch_size %d, load batch_size %d, row_group_size %s, schema %s]' % (
             case['scale'], k, n, case['m'], case['rg'], schema_label(case['schema']))
+    if obs.get('size_at_completion') is not None and obs['size_at_completion'] != obs.get('size'):
+        return {'sig': 'parquet:completed-before-file-complete' + at, 'what': pre + 'dump_to_file signalled completion when the '
+                'file held %s bytes; complete it holds %s' % (obs['size_at_completion'], obs.get('size'))}
     if obs['dump_end'] != ['completed']:
         return {'sig': 'parquet:dump-end' + at, 'what': pre + 'dump_to_file ended with %s (schema %s, %d rows)%s'
                 % (obs['dump_end'], schema_label(case['schema']), k, kord)}
